@@ -122,6 +122,8 @@ def run_cli_to_text(ctx, argv, name):
     if _CALLS[0] % 4 == 1:
         # the same output file name used again (a PEST run, a re-run set-up script): the file
         # must hold the output of the last run only
+        with open(out, 'w') as f:
+            f.write('stale line of an earlier, longer output\n' * 400)
         data.cli(argv + ['-o', out])
         gc.collect()
         ctx.rec.hit('cli-output-file-name-reused')
